@@ -100,6 +100,9 @@ type vxStoreClient struct {
 	data   map[[3]uint64][]byte
 	writes int
 	opened [][3]uint64
+	// listBreaks: a listing may break off after its first entry (a later page of a
+	// paginated listing cannot be fetched); only Err() and Close() report it
+	listBreaks bool
 }
 
 func vxKey(level int, min, max ltx.TXID) [3]uint64 {
@@ -116,7 +119,11 @@ func (c *vxStoreClient) put(f *vxLTX) {
 }
 
 func (c *vxStoreClient) LTXFiles(ctx context.Context, level int, seek ltx.TXID, useMetadata bool) (ltx.FileIterator, error) {
-	return c.vxRepClient.LTXFiles(ctx, level, seek, useMetadata)
+	itr, err := c.vxRepClient.LTXFiles(ctx, level, seek, useMetadata)
+	if err == nil && c.listBreaks && vx.Fault("listBreaksOff") {
+		return &vxBreakingIterator{FileIterator: itr, left: 1}, nil
+	}
+	return itr, err
 }
 
 func (c *vxStoreClient) OpenLTXFile(ctx context.Context, level int, minTXID, maxTXID ltx.TXID, offset, size int64) (io.ReadCloser, error) {
@@ -355,6 +362,37 @@ func vxDstPages(min ltx.TXID) []vxPg {
 // The new level-1 file must start where level 1 ended, end at the newest
 // replicated file, equal the replica's level-0 files applied in order, and the
 // retention pass that follows must keep the newest state restorable.
+// VxC06LevelEnd: the newest file of a level - where every compaction into and out
+// of that level continues - as the DB reads it through its per-level cache, while
+// the listing that fills the cache may break off part-way. An end taken from a
+// partial listing would make the next compaction start in the middle of the level.
+func VxC06LevelEnd() {
+	k := vx.Param("K", 3)
+	dir := vx.TempDir()
+	db := NewDB(dir + "/app.db")
+	c := &vxStoreClient{}
+	for i := 0; i < k; i++ {
+		f := &vxLTX{level: 1, min: ltx.TXID(2*i + 1), max: ltx.TXID(2*i + 2), commit: 2, ts: int64(1000 + i), pages: []vxPg{{pgno: 1, tag: uint64(i + 1)}}}
+		if i == 0 {
+			f.pages = []vxPg{{pgno: 1, tag: 1}, {pgno: 2, tag: 1}}
+		}
+		c.put(f)
+	}
+	c.put(&vxLTX{level: 2, min: 1, max: 2, commit: 2, ts: 1000, pages: []vxPg{{pgno: 1, tag: 1}, {pgno: 2, tag: 1}}})
+	db.Replica = NewReplicaWithClient(db, c)
+	db.compactor.client = c
+	ctx := context.Background()
+	c.listBreaks = true
+	info, err := db.MaxLTXFileInfo(ctx, 1)
+	c.listBreaks = false
+	vx.Assert("level-end-is-taken-only-from-a-complete-listing", err != nil || int(info.MaxTXID) == 2*k)
+	info, err = db.MaxLTXFileInfo(ctx, 1)
+	vx.Assert("level-end-known-once-the-listing-works", err == nil && int(info.MaxTXID) == 2*k)
+	out, cerr := db.Compact(ctx, 2)
+	vx.Assert("next-level-continues-to-the-level-end", cerr == nil && out != nil && out.MinTXID == 3 && int(out.MaxTXID) == 2*k)
+	vx.Assert("level-2-contiguous", db.compactor.VerifyLevelConsistency(ctx, 2) == nil)
+}
+
 func VxC06DBCompact() {
 	n := vx.Param("N", 3)
 	dir := vx.TempDir()
